@@ -4,6 +4,7 @@ import GfsModel.OpsList
 import GfsModel.OpsFuzz
 import GfsModel.OpsDisk
 import GfsModel.OpsHuge
+import GfsModel.OpsHandles
 
 namespace Gfs.Ops
 open Gfs.Proto
@@ -29,6 +30,9 @@ def dispatch (f : List String) : Obs × Option Obs :=
             | none =>
               match dispatchHuge f with
               | some r => r
-              | none => ([("bad-op", "1")], none)
+              | none =>
+                match dispatchHandles f with
+                | some r => r
+                | none => ([("bad-op", "1")], none)
 
 end Gfs.Ops
